@@ -43,6 +43,7 @@ int main(int argc, char** argv)
             Fnv f; f.str(body.name); f.pod(T);
             L.states.insert(f.h);
             L.distinct.insert(f.h);
+            L.sample("{\"body\": " + jstr(body.name) + ", \"threads\": " + num(T) + ", \"rounds\": " + num(rounds) + "}", 4);
             if (bad) L.violate("C20|" + body.name + "|T=" + num(T) + "|free-running-result-differs", "free#" + num(b), num(bad) + " thread results differ from the sequential run");
         }
     }
